@@ -42,7 +42,9 @@ def docs(ctx):
 def gen(ctx):
     cases = []
     ds = docs(ctx)
-    fixed = ["$..*", "$.*", "$[*][*]", "$..[-1]", "$..[::-1]", "$[1]", "$['1']", "$[-1]", "$..['1']", "$..[0]", "$..[?@ == 'x']", "$[?@[0]]", "$"]
+    fixed = ["$..*", "$.*", "$[*][*]", "$..[-1]", "$..[::-1]", "$[1]", "$['1']", "$[-1]", "$..['1']", "$..[0]", "$..[?@ == 'x']", "$[?@[0]]", "$",
+             # slices whose explicit bounds lie outside the array, in both directions
+             "$..[5::-1]", "$..[9:0:-2]", "$..[2::-1]", "$..[1::-1]", "$..[-9:9]", "$..[:-9:-1]", "$..[3:]", "$..[-1:-9:-1]", "$[1::-1]", "$[7::-3]"]
     for d in ds:
         for q in (fixed if ctx.tier != "quick" else ctx.rng.sample(fixed, 6)):
             cases.append({"text": q, "doc": d})
